@@ -71,6 +71,10 @@ def run(ctx, w):
     from rules import c06
     up, down = c06.scroll_prims(w, S)
     c06_w9(ctx, w, S, up)
+    # the primary screen must carry the CONFIGURED limit everywhere it is (re)built: a primary rebuilt with Some(0)
+    # is trimmed to the bare view at the end of every feed_str call but never by feed()
+    from rules import c06
+    c06.role_limits(ctx, w, S, R, "K7")
 
 
 def c06_w9(ctx, w, S, up):
